@@ -1,4 +1,5 @@
 import Invoke.Lemmas.RunnerStdin
+import Invoke.Lemmas.RunnerReuse
 /-! # C13 — input-stream text reaches the command complete, in order, then EOF
 
 Stated over EVERY schedule (`Inv.run` over arbitrary lists of thread steps and environment
@@ -115,5 +116,20 @@ example :
     let s := run (S.init true false false false false [] [] [.data [104], .data [105], .notReady, .data [33], .eof] false false 1000)
       (List.replicate 14 (.act .stdin) ++ [.env (.exit 0), .act .main, .act .main, .act .main, .act .stdin, .act .stdin])
     s.fwd = [[104], [105], [33]] ∧ s.closeCount = 1 ∧ s.inPc = .done := by decide
+
+/-! ## runs on one runner object -/
+
+/-- REUSE: the model starts every run from `S.init` / resolves every call's options from that call alone.  The table
+    regenerated from the real `Local` - attributes that differ, when the second run's workers start, between a fresh
+    object and one that has already timed out / failed / read half a character / answered a watcher / lost a worker /
+    run asynchronously / used a pty / used other options - contains only inert leftovers (`RunnerReuse.inertLeftovers`):
+    no event, codec, watcher list, timer or kill flag of an earlier run is in effect. -/
+theorem reused_runner_starts_like_fresh :
+    ∀ r ∈ Generated.carriedOver, RunnerReuse.rowInert r = true := by decide
+
+/-- the probe is not vacuous: every first run it drives does leave per-run state behind -/
+theorem reuse_probe_dirties_state :
+    RunnerReuse.everyScenarioDirties = true ∧ 10 ≤ Generated.dirtyScenarios.length ∧ 20 ≤ Generated.probedAttrs.length := by
+  decide
 
 end Inv
